@@ -89,6 +89,14 @@ func (p *Program) buildQuery(o *Obligation, wantModel bool) string {
 			}
 		}
 	}
+	// interior pointers: ptr!mk is a pairing with projections ptr!arr / ptr!idx; the nil pointer has array id 0
+	if used["ptr!mk"] || used["ptr!arr"] || used["ptr!idx"] {
+		a, i, pp := mkVar("a!ptr", SInt), mkVar("i!ptr", SInt), mkVar("p!ptr", SInt)
+		mk := mkApp("ptr!mk", SInt, a, i)
+		extra = append(extra, mkForall([]*Term{a, i}, mkAnd(mkEq(mkApp("ptr!arr", SInt, mk), a), mkEq(mkApp("ptr!idx", SInt, mk), i)), mk))
+		extra = append(extra, mkEq(mkApp("ptr!arr", SInt, tZero), tZero))
+		extra = append(extra, mkForall([]*Term{pp}, mkEq(mkApp("ptr!mk", SInt, mkApp("ptr!arr", SInt, pp), mkApp("ptr!idx", SInt, pp)), pp), mkApp("ptr!arr", SInt, pp)))
+	}
 	// every string has a length in [0, 2^62] (address space)
 	if used["slen"] {
 		sv := mkVar("s!len", SStr)
